@@ -238,7 +238,7 @@ func main() {
 
 func run(t *vlib.T) {
 	var err error
-	tmpDir, err = os.MkdirTemp("", "c02-fs-")
+	tmpDir, err = os.MkdirTemp(vlib.Scratch(), "c02-fs-") // under the run's scratch dir: removed by the parent even if this worker is killed
 	if err != nil {
 		panic(err)
 	}
